@@ -102,6 +102,18 @@ int main (int argc, char** argv)
       expect_true (what, std::isfinite (e.x.real()) && std::isfinite (e.x.imag()) && std::isfinite (e.y.real()) && std::isfinite (e.y.imag()));
     } }, 1);
 #endif
+#ifndef SYMX_SYMBOLIC
+  // low and high intensities, unpolarized and partially polarized: the polarizer squares back to the requested
+  // coherency natural (S) = 2 rho (C01's theorems derive the ensemble mean and covariance from exactly this) at every scale
+  fn ("polarizer_scales_plain", [&] {
+    const double dirs[][3] = { {0,0,0}, {0.3,-0.2,0.1}, {0.5,0.5,0.5}, {0,0.9,0}, {-0.6,0,0.79}, {0.999,0,0} };
+    for (auto& d : dirs) for (double I : { 1e-60, 1e-30, 1e-12, 1e-10, 1e-8, 1e-4, 1.0, 1e4, 1e12, 1e30, 1e60 }) {
+      mode m; Stokes<double> S (I, I*d[0], I*d[1], I*d[2]); m.set_Stokes (S);
+      Jones<double> P = m.get_polarizer (), PP = P * P, R = convert (natural (S)); char what[200];
+      snprintf (what, 200, "mean (%g, %g, %g, %g): the polarizer squares to the requested coherency", S[0], S[1], S[2], S[3]);
+      for (unsigned i=0; i<4; i++) expect_true (what, std::abs (PP[i] - R[i]) <= 1e-12 * I);
+    } }, 1);
+#endif
   symx::finish ();
   return 0;
 }
